@@ -31,7 +31,16 @@ fn env() -> Env {
 
 pub fn texec(kv: &mut Kv, sender: &str, msg: ExecuteMsg) -> Result<Response, String> {
     let api = SimApi { prefix: PROTO_PREFIX };
-    let q = NoQuerier;
+    // the treasury account is funded, and the chain answers balance queries
+    static BANK: std::sync::OnceLock<std::collections::BTreeMap<(String, String), u128>> = std::sync::OnceLock::new();
+    let bank = BANK.get_or_init(|| {
+        let mut bank = std::collections::BTreeMap::new();
+        for d in ["a", "b", "ibc/ABC", "uosmo", "utia", "ibc/TIA", "uusdc"] {
+            bank.insert((tre_addr(), d.to_string()), 5_000_000u128);
+        }
+        bank
+    });
+    let q = mwsim::kv::ChainQuerier { bank, contract: tre_addr() };
     let info = MessageInfo { sender: Addr::unchecked(sender), funds: vec![] };
     let deps = DepsMut { storage: kv, api: &api, querier: QuerierWrapper::new(&q) };
     match guarded(|| treasury::contract::execute(deps, env(), info, msg)) {
